@@ -5,7 +5,7 @@
 use crate::alphabet::*;
 use crate::decoder::{self, place_hash};
 use crate::engine_a::{check_flavour, run_flavour, ITER_FLAVOURS};
-use crate::pool::{JobResult, Pool, WorkerIo};
+use crate::pool::{JobResult, WorkerIo};
 use crate::props_a::Ctx;
 use crate::report::{Replay, Violation};
 use crate::subject::*;
@@ -456,6 +456,14 @@ pub fn c04(tier: &str, seed: u64) -> i32 {
             let starts: Vec<crate::engine_a::Start> = crate::props_a::empty_start(&mut ctx, &cfg).into_iter().collect();
             crate::props_a::run_closure(&mut ctx, &format!("{} [bytes, {n} buckets] all 7 iterator flavours on every state", a.label), &cfg, starts, 100_000, 30.0);
         }
+        // histories in which key records are relocated and chains re-linked (offsets crossing 16 KiB)
+        let specs = vec![
+            crate::props_c08::SeedSpec { file: "val", boundary: 16 * 1024, eps: 16, free_slots: 0 },
+            crate::props_c08::SeedSpec { file: "key", boundary: 16 * 1024, eps: 16, free_slots: 2 },
+            crate::props_c08::SeedSpec { file: "key", boundary: 16 * 1024, eps: 16, free_slots: 0 },
+            crate::props_c08::SeedSpec { file: "both", boundary: 16 * 1024, eps: 16, free_slots: 2 },
+        ];
+        crate::props_c08::seeded_group(&mut ctx, "C04", crate::engine_a::O_ITER, 0, 2, vec![3, 200], &specs, 60_000, 10.0);
         if thorough {
             for kt in [KtId::Str, KtId::U64, KtId::I64, KtId::Vu64] {
                 let a = &crate::props_a::alphas_small()[0];
